@@ -24,6 +24,7 @@ type Config struct {
 	StickNum   int    `json:"stick_num"`
 	StickDen   int    `json:"stick_den"`
 	Readers    int    `json:"readers,omitempty"`
+	DefaultLog bool   `json:"default_log,omitempty"` // Open without WithLogger: the WAL falls back to hclog.Default() (set to a null logger by the harness)
 	StableTask bool   `json:"stable_task,omitempty"` // concurrent flow: a task issuing Set/Get beside the writer and the readers
 	Strict     bool   `json:"strict"`                // observe and compare after every mutating op
 	Usability  bool   `json:"usability"`             // run the usability script after every recovery (C03)
@@ -93,7 +94,8 @@ type Replay struct {
 	Golden    string     `json:"golden,omitempty"`    // C09: path of a golden directory that no longer reads back identically
 	FromSeed  bool       `json:"from_seed,omitempty"` // re-execute the seed (no recorded tape: the run never ended)
 	Note      string     `json:"note,omitempty"`
-	Race      bool       `json:"race,omitempty"` // the violation is a race-detector report: replay re-executes the seed under the race build (bin/walsim-race)
+	Child     bool       `json:"child,omitempty"` // the violation kills the process (panic in a goroutine the library started): replay re-executes the seed in a child process
+	Race      bool       `json:"race,omitempty"`  // the violation is a race-detector report: replay re-executes the seed under the race build (bin/walsim-race)
 }
 
 func (r *Replay) Write(path string) error {
